@@ -141,17 +141,31 @@ class BuildDirs:
         parent = os.path.dirname(prev_parent)
         with self._lock:
             self._removed_files.discard(os.path.normcase(filename))
+            is_counting = True
             while parent != prev_parent:
                 norm_cased_parent = os.path.normcase(parent)
-                count = self._build_dir_counts.get(norm_cased_parent, 0)
-                self._build_dir_counts[norm_cased_parent] = count + 1
-                if count > 0:
-                    break
-                if parent in created_dirs_set:
+                if is_counting:
+                    count = self._build_dir_counts.get(norm_cased_parent, 0)
+                    self._build_dir_counts[norm_cased_parent] = count + 1
+                    if count > 0:
+                        # The parents already have a reservation for this
+                        # directory
+                        is_counting = False
+
+                # Another thread might have reserved the directory first,
+                # after seeing the directory that this thread created. Or it
+                # might be a directory we created that was virtually removed
+                # due to an exception, which another thread still saw.
+                if ((parent in created_dirs_set or
+                        norm_cased_parent in self._error_created_dirs) and
+                        norm_cased_parent not in self._created_dirs_map):
                     self._created_dirs_map[norm_cased_parent] = parent
                     self._error_created_dirs.discard(norm_cased_parent)
                     self._removed_files.discard(norm_cased_parent)
                     locked_created_dirs.append(parent)
+                elif (not is_counting and not created_dirs_set and
+                        not self._error_created_dirs):
+                    break
 
                 prev_parent = parent
                 parent = os.path.dirname(parent)
